@@ -195,7 +195,9 @@ func (d *f32Decoder) FromDom(vp unsafe.Pointer, node Node, ctx *context) error {
 	}
 
 	ret, ok := node.AsF64(ctx)
-	if !ok || ret > math.MaxFloat32 || ret < -math.MaxFloat32 {
+	/* the range check is made on the rounded value, like strconv.ParseFloat(s, 32) and the
+	 * generated decoder do: values up to half an ulp above MaxFloat32 round to MaxFloat32 */
+	if !ok || math.IsInf(float64(float32(ret)), 0) {
 		return error_mismatch(node, ctx, float32Type)
 	}
 
